@@ -451,4 +451,5 @@ def units(tier):
         Unit("random-inv", check, strategy=lambda: cases(10, ["inv"]), examples=(800, 10000), shards=(4, 16)),
         Unit("random-log", check, strategy=lambda: cases(9, ["log"]), examples=(800, 10000), shards=(4, 16)),
         Unit("random-lengths-large", check, strategy=lambda: cases(big, ["len", "inv"]), examples=(200, 4000), shards=(4, 16)),
+        Unit("random-n<=45", check, strategy=lambda: cases(45, ["bin", "len", "log"]), examples=(60, 1200), shards=(12, 16)),
     ]
